@@ -319,20 +319,21 @@ func (db *DB) writeObject(o Object) (err error) {
 		return
 	}
 
+	if data, err = json.Marshal(o); err != nil {
+		return
+	}
+
+	return db.writeData(s, o, data)
+}
+
+// writeData writes serialized object to disk
+func (db *DB) writeData(s *Schema, o Object, data []byte) (err error) {
 	path := db.oPath(s, o)
 	if err = os.MkdirAll(filepath.Dir(path), DefaultPermissions); err != nil {
 		return
 	}
 
-	if data, err = json.Marshal(o); err != nil {
-		return
-	}
-
-	if err = writeReader(path, bytes.NewBuffer(data), DefaultPermissions, s.Compress); err != nil {
-		return
-	}
-
-	return
+	return writeReader(path, bytes.NewBuffer(data), DefaultPermissions, s.Compress)
 }
 
 func (db *DB) getByUUID(in Object, uuid string) (out Object, err error) {
@@ -384,18 +385,26 @@ func (db *DB) initialize(o Object) (err error) {
 }
 
 func (db *DB) insertOrUpdate(s *Schema, o Object, commit bool) (err error) {
+	var data []byte
 
 	// initialize object first
 	if err = db.initialize(o); err != nil {
 		return
 	}
 
-	if s.mustCache() {
-		db.cache.put(o)
+	// object is serialized first so that an object which cannot
+	// be serialized is rejected before anything is modified
+	if data, err = json.Marshal(o); err != nil {
+		return
 	}
 
 	if err = s.index(o); err != nil {
 		return
+	}
+
+	// we cache only objects accepted by the index
+	if s.mustCache() {
+		db.cache.put(o)
 	}
 
 	if s.asyncWritesEnabled() {
@@ -404,7 +413,7 @@ func (db *DB) insertOrUpdate(s *Schema, o Object, commit bool) (err error) {
 		db.asyncw.put(o)
 	} else {
 		// writing the object to disk
-		if err = db.writeObject(o); err != nil {
+		if err = db.writeData(s, o, data); err != nil {
 			return
 		}
 
